@@ -108,8 +108,9 @@ def _load_order(ctx, loader):
     ctx.require(lm is not None, 'Loader.load_model')
     calls = [s for s in K.walk_no_nested(lm.node)
              if isinstance(s, ast.Call) and K.recv_text(s) == 'self']
-    order = [s.func.attr for s in sorted(
-        calls, key=lambda c: (c.lineno, c.col_offset))]
+    # statement order of the (normalised) routine: the walk is pre-order,
+    # so steps moved into private helpers appear where they are called
+    order = [s.func.attr for s in calls]
     graph = ctx.cfg(lm)
     straight = not [n for n in graph.nodes if n.kind in ('test', 'for',
                                                          'loop_head')]
@@ -149,7 +150,19 @@ def _verbatim(ctx, loader):
     defs = M.local_defs(func)
     restores = K.nodes_calling(graph, lambda c: K.is_meth(c, 'restore') and
                                len(c.args) == 2)
-    ctx.require(restores, 'verbatim restore call')
+    if not restores:
+        # the scheduler still offers the verbatim restore (anchor present)
+        # but the loader no longer uses it: every recorded placement is
+        # re-evaluated (constraints, lease) on a restart
+        server = ctx.index.get_class(K.SCHED, 'Server')
+        ctx.require(server is not None and 'restore' in server.methods,
+                    'verbatim restore call')
+        ctx.fail('C11.2', func, None,
+                 'restore_placement never calls Server.restore(app, expires):'
+                 ' a placement recorded before the server came up is not '
+                 'taken verbatim',
+                 construct='verbatim restore')
+        return
     loop = None
     for node, call in restores:
         loop = K.enclosing_for(graph, node)
@@ -433,7 +446,10 @@ def check(ctx):
     master = ctx.index.get_class(K.MASTER, 'Master')
     _load_order(ctx, loader)
     _load_everything(ctx, loader)
-    func, graph, facts, _loop = _verbatim(ctx, loader)
+    found = _verbatim(ctx, loader)
+    if found is None:
+        return
+    func, graph, facts, _loop = found
     _keys_and_identity(ctx, loader, master, func, graph, facts)
     _nothing_else(ctx, loader, func)
 
@@ -474,6 +490,11 @@ MUTANTS = [
         self.load_traits()
         self.restore_placements()
 """)], 'C11.1'),
+    ('verbatim-through-put', [(_L, """                restored = server.restore(app, expires)
+""", """                restored = server.put(app)
+                if restored:
+                    app.placement_expiry = expires
+""")], 'C11.2'),
     ('verbatim-only-when-up', [(_L, """            if presence_time and presence_time <= placement_time:
 """, """            if (server.state is scheduler.State.up and
                     presence_time and presence_time <= placement_time):
